@@ -529,7 +529,7 @@ func (g *G) forStmt(sc *scope, depth int) []string {
 
 func (g *G) rangeStmt(sc *scope, depth int) []string {
 	sl := g.varsOf(sc, func(v *Var) bool { return v.T.K == KSlice })
-	ms := g.varsOf(sc, func(v *Var) bool { return v.T.K == KMap && v.T.Elem.IsInt() && v.T.Key.K == KU64 })
+	ms := g.varsOf(sc, func(v *Var) bool { return v.T.K == KMap && v.NonNil && v.T.Elem.IsInt() && v.T.Key.K == KU64 })
 	if len(ms) > 0 && (len(sl) == 0 || g.chance("rangemap", 40)) {
 		// map range with a commutative body: fold into a uint64 accumulator
 		accs := g.mutableVars(sc, func(v *Var) bool { return v.T.K == KU64 && !v.LoopVar })
